@@ -20,6 +20,9 @@ enum Msg {
     Call(RpcReplyPort<u64>),
 }
 
+#[cfg(feature = "cluster")]
+impl ractor::Message for Msg {}
+
 enum Cmd {
     Join(String),
     Monitor(String),
@@ -102,6 +105,10 @@ impl Actor for Starter {
 }
 
 struct Slot {
+    /// the spawn call's own result as the implementation reported it: `ok` / `err` (spawn or the
+    /// instant start task returned Err) / `cut` (the harness dropped the future / aborted the task);
+    /// empty while pending
+    result: Arc<Mutex<Option<&'static str>>>,
     gate: Option<mpsc::UnboundedSender<Cmd>>,
     task: Option<tokio::task::AbortHandle>, // aborts the task driving the spawn future (plain) / the instant start task
     cell: Option<ActorCell>,
@@ -156,7 +163,8 @@ impl World {
             }
         }
         let sup_cell = sup.and_then(|p| self.slots.get(p).and_then(|s| s.cell.clone()));
-        let mut slot = Slot { gate: Some(tx), task: None, cell: None, name };
+        let mut slot = Slot { result: Default::default(), gate: Some(tx), task: None, cell: None, name };
+        let res = slot.result.clone();
         let result;
         if instant {
             let r = match sup_cell {
@@ -168,10 +176,20 @@ impl World {
                     slot.cell = Some(aref.get_cell());
                     // aborting the start task drops the start future at its await point
                     slot.task = Some(jh.abort_handle());
+                    // what the start task itself reports to whoever joins it
+                    tokio::spawn(async move {
+                        let r = match jh.await {
+                            Ok(Ok(_)) => "ok",
+                            Ok(Err(_)) => "err",
+                            Err(_) => "cut",
+                        };
+                        *res.lock().unwrap() = Some(r);
+                    });
                     result = "ok".to_string();
                 }
                 Err(_) => {
                     slot.gate = None;
+                    *res.lock().unwrap() = Some("err");
                     result = "err-name".to_string();
                 }
             }
@@ -185,6 +203,7 @@ impl World {
                     Some(p) => Actor::spawn_linked(nm, actor, args, p).await,
                     None => Actor::spawn(nm, actor, args).await,
                 };
+                *res.lock().unwrap() = Some(if r.is_ok() { "ok" } else { "err" });
                 if let Err(e) = r {
                     *ef.lock().unwrap() = Some(format!("{e:?}"));
                 }
@@ -221,6 +240,13 @@ impl World {
             }
         }
         quiesce().await;
+        if let Some(s) = self.slots.get(a) {
+            // the future is gone without having produced a result
+            let mut r = s.result.lock().unwrap();
+            if r.is_none() {
+                *r = Some("cut");
+            }
+        }
         "ok".into()
     }
 
@@ -297,7 +323,7 @@ impl World {
         };
         for k in kids {
             if self.idx_of_pid(k.get_id().pid()).is_none() {
-                self.slots.push(Slot { gate: None, task: None, cell: Some(k), name: None });
+                self.slots.push(Slot { result: Arc::new(Mutex::new(Some("ok"))), gate: None, task: None, cell: Some(k), name: None });
             }
         }
     }
@@ -373,7 +399,8 @@ impl World {
             .collect();
         evs.sort();
         let p: String = self.port_done.iter().collect();
-        format!("N[{n}] A[{}] E[{}] P[{p}]", rows.join("|"), evs.join(","))
+        let r: Vec<String> = self.slots.iter().enumerate().map(|(i, s)| format!("{i}:{}", s.result.lock().unwrap().unwrap_or("pending"))).collect();
+        format!("N[{n}] A[{}] E[{}] P[{p}] R[{}]", rows.join("|"), evs.join(","), r.join(","))
     }
 
     async fn teardown(&mut self) {
